@@ -148,6 +148,152 @@ fn lambert_w0(x: f64) -> f64 {
     w
 }
 
+// The bodies of the heavy arms live in functions of their own: `eval` recurses once per nested operator, and in an
+// unoptimised build the temporaries of every arm are part of each of its stack frames (84 nested products overflowed a 2 MiB stack).
+fn factorial(sub_result: Decimal) -> Result<Decimal, Box<dyn error::Error>> {
+    if sub_result >= Decimal::ZERO {
+        if (sub_result % Decimal::new(1, 0)) > Decimal::ZERO {
+            gamma(sub_result + Decimal::new(1, 0)).ok_or_else(out_of_range)
+        } else {
+            let mut factorial_result = Decimal::new(1, 0);
+            for i in 2..=sub_result.to_i64().ok_or_else(out_of_range)? {
+                #[cfg(feature = "verif_hooks")]
+                crate::verif_hooks::tick(3);
+                factorial_result = factorial_result
+                    .checked_mul(Decimal::new(i, 0))
+                    .ok_or_else(out_of_range)?;
+            }
+            Ok(factorial_result)
+        }
+    } else if (sub_result % Decimal::new(1, 0)) == Decimal::ZERO {
+        return Err("The factorial function is not defined for {}.".into());
+    } else {
+        gamma(sub_result + Decimal::new(1, 0)).ok_or_else(out_of_range)
+    }
+}
+
+fn lambert_w(sub_expr: Decimal) -> Result<Decimal, Box<dyn error::Error>> {
+    if sub_expr < -Decimal::new(-1, 0).exp() {
+        return Err("The Lambert W function is not defined for {}.".into());
+    }
+    // start from the double-precision value, then refine with Halley steps in Decimal
+    let start = lambert_w0(sub_expr.to_f64().ok_or_else(out_of_range)?);
+    let mut w = Decimal::from_f64(start).ok_or_else(out_of_range)?;
+    let one = Decimal::new(1, 0);
+    let two = Decimal::new(2, 0);
+    for _ in 0..3 {
+        #[cfg(feature = "verif_hooks")]
+        crate::verif_hooks::tick(3);
+        let refined = (|| -> Option<Decimal> {
+            let exp_w = w.checked_exp()?;
+            let f = w.checked_mul(exp_w)?.checked_sub(sub_expr)?;
+            let correction = (w + two)
+                .checked_mul(f)?
+                .checked_div(two.checked_mul(w)?.checked_add(two)?)?;
+            let denominator = exp_w.checked_mul(w + one)?.checked_sub(correction)?;
+            w.checked_sub(f.checked_div(denominator)?)
+        })();
+        match refined {
+            Some(next) => w = next,
+            None => break,
+        }
+    }
+    Ok(w)
+}
+
+fn iterated_log(mut n: Decimal, b: Decimal) -> Result<Decimal, Box<dyn error::Error>> {
+    let mut x = Decimal::ZERO;
+    while n > Decimal::new(1, 0) {
+        #[cfg(feature = "verif_hooks")]
+        crate::verif_hooks::tick(3);
+        x += Decimal::new(1, 0);
+        let next = n
+            .checked_log10()
+            .ok_or_else(undefined)?
+            .checked_div(b.checked_log10().ok_or_else(undefined)?)
+            .ok_or_else(undefined)?
+            .floor();
+        if next >= n {
+            return Err("The iterated logarithm does not converge for this base".into());
+        }
+        n = next;
+    }
+    Ok(x)
+}
+
+fn eval_min(args: Arc<Vec<Node>>) -> Result<Decimal, Box<dyn error::Error>> {
+    if args.len() > 1 {
+        let mut result = Decimal::MAX;
+        for arg in <Vec<Node> as Clone>::clone(&args).into_iter() {
+            result = eval(arg)?.min(result);
+        }
+        Ok(result)
+    } else {
+        match args.first() {
+            Some(arg) => Ok(eval((*arg).clone())?),
+            None => Ok(Decimal::ZERO),
+        }
+    }
+}
+
+fn eval_max(args: Arc<Vec<Node>>) -> Result<Decimal, Box<dyn error::Error>> {
+    if args.len() > 1 {
+        let mut result = Decimal::MIN;
+        for arg in <Vec<Node> as Clone>::clone(&args).into_iter() {
+            result = eval(arg)?.max(result);
+        }
+        Ok(result)
+    } else {
+        match args.first() {
+            Some(arg) => Ok(eval((*arg).clone())?),
+            None => Ok(Decimal::ZERO),
+        }
+    }
+}
+
+fn eval_avg(args: Arc<Vec<Node>>) -> Result<Decimal, Box<dyn error::Error>> {
+    let len = Decimal::new(args.len() as i64, 0);
+    let mut values = vec![];
+    for arg in <Vec<Node> as Clone>::clone(&args).into_iter() {
+        values.push(eval(arg)?);
+    }
+    let mut sum = Some(Decimal::ZERO);
+    for value in values.iter() {
+        sum = sum.and_then(|s| s.checked_add(*value));
+    }
+    match sum {
+        Some(sum) => Ok(sum / len),
+        // the sum leaves the Decimal range although the mean does not
+        None => {
+            let mut mean = Decimal::ZERO;
+            for value in values.iter() {
+                mean = mean.checked_add(*value / len).ok_or_else(out_of_range)?;
+            }
+            Ok(mean)
+        }
+    }
+}
+
+fn eval_med(args: Arc<Vec<Node>>) -> Result<Decimal, Box<dyn error::Error>> {
+    let mut results = vec![];
+    for arg in <Vec<Node> as Clone>::clone(&args).into_iter() {
+        results.push(eval(arg)?);
+    }
+    results.sort_by(|a, b| a.partial_cmp(b).unwrap_or(std::cmp::Ordering::Equal));
+    let len = results.len();
+    if len % 2 == 0 {
+        let two = Decimal::new(2, 0);
+        match results[len >> 1].checked_add(results[(len >> 1) - 1]) {
+            Some(sum) => Ok(sum / two),
+            None => (results[len >> 1] / two)
+                .checked_add(results[(len >> 1) - 1] / two)
+                .ok_or_else(out_of_range),
+        }
+    } else {
+        Ok(results[len >> 1])
+    }
+}
+
 pub fn eval(expr: Node) -> Result<Decimal, Box<dyn error::Error>> {
     #[cfg(feature = "verif_hooks")]
     crate::verif_hooks::tick(2);
@@ -167,7 +313,22 @@ pub fn eval(expr: Node) -> Result<Decimal, Box<dyn error::Error>> {
             .checked_div(eval(*expr2)?)
             .ok_or_else(undefined),
         Modulo(expr1, expr2) => exact_rem(eval(*expr1)?, eval(*expr2)?).ok_or_else(undefined),
-        Negative(expr1) => Ok(-(eval(*expr1)?)),
+        Negative(expr1) => {
+            // a run of prefix minus signs is unwound here instead of costing one recursion level each
+            let mut operand = *expr1;
+            let mut signs = 1;
+            while let Negative(inner) = operand {
+                #[cfg(feature = "verif_hooks")]
+                crate::verif_hooks::tick(2);
+                operand = *inner;
+                signs += 1;
+            }
+            let mut value = eval(operand)?;
+            for _ in 0..signs {
+                value = -value;
+            }
+            Ok(value)
+        }
         Abs(sub_expr) => Ok(eval(*sub_expr)?.abs()),
         Floor(sub_expr) => Ok(eval(*sub_expr)?.floor()),
         Ceil(sub_expr) => Ok(eval(*sub_expr)?.ceil()),
@@ -192,77 +353,11 @@ pub fn eval(expr: Node) -> Result<Decimal, Box<dyn error::Error>> {
             let denominator = eval(*expr2)?.checked_ln().ok_or_else(undefined)?;
             numerator.checked_div(denominator).ok_or_else(undefined)
         }
-        Factorial(sub_expr) => {
-            let sub_result = eval(*sub_expr)?;
-            if sub_result >= Decimal::ZERO {
-                if (sub_result % Decimal::new(1, 0)) > Decimal::ZERO {
-                    gamma(sub_result + Decimal::new(1, 0)).ok_or_else(out_of_range)
-                } else {
-                    let mut factorial_result = Decimal::new(1, 0);
-                    for i in 2..=sub_result.to_i64().ok_or_else(out_of_range)? {
-                        #[cfg(feature = "verif_hooks")]
-                        crate::verif_hooks::tick(3);
-                        factorial_result = factorial_result
-                            .checked_mul(Decimal::new(i, 0))
-                            .ok_or_else(out_of_range)?;
-                    }
-                    Ok(factorial_result)
-                }
-            } else if (sub_result % Decimal::new(1, 0)) == Decimal::ZERO {
-                return Err("The factorial function is not defined for {}.".into());
-            } else {
-                gamma(sub_result + Decimal::new(1, 0)).ok_or_else(out_of_range)
-            }
-        }
-        LambertW(expr) => {
-            let sub_expr = eval(*expr)?;
-            if sub_expr < -Decimal::new(-1, 0).exp() {
-                return Err("The Lambert W function is not defined for {}.".into());
-            }
-            // start from the double-precision value, then refine with Halley steps in Decimal
-            let start = lambert_w0(sub_expr.to_f64().ok_or_else(out_of_range)?);
-            let mut w = Decimal::from_f64(start).ok_or_else(out_of_range)?;
-            let one = Decimal::new(1, 0);
-            let two = Decimal::new(2, 0);
-            for _ in 0..3 {
-                #[cfg(feature = "verif_hooks")]
-                crate::verif_hooks::tick(3);
-                let refined = (|| -> Option<Decimal> {
-                    let exp_w = w.checked_exp()?;
-                    let f = w.checked_mul(exp_w)?.checked_sub(sub_expr)?;
-                    let correction = (w + two)
-                        .checked_mul(f)?
-                        .checked_div(two.checked_mul(w)?.checked_add(two)?)?;
-                    let denominator = exp_w.checked_mul(w + one)?.checked_sub(correction)?;
-                    w.checked_sub(f.checked_div(denominator)?)
-                })();
-                match refined {
-                    Some(next) => w = next,
-                    None => break,
-                }
-            }
-            Ok(w)
-        }
+        Factorial(sub_expr) => factorial(eval(*sub_expr)?),
+        LambertW(expr) => lambert_w(eval(*expr)?),
         ILog(expr1, expr2) => {
-            let mut n = eval(*expr1)?;
-            let b = eval(*expr2)?;
-            let mut x = Decimal::ZERO;
-            while n > Decimal::new(1, 0) {
-                #[cfg(feature = "verif_hooks")]
-                crate::verif_hooks::tick(3);
-                x += Decimal::new(1, 0);
-                let next = n
-                    .checked_log10()
-                    .ok_or_else(undefined)?
-                    .checked_div(b.checked_log10().ok_or_else(undefined)?)
-                    .ok_or_else(undefined)?
-                    .floor();
-                if next >= n {
-                    return Err("The iterated logarithm does not converge for this base".into());
-                }
-                n = next;
-            }
-            Ok(x)
+            let n = eval(*expr1)?;
+            iterated_log(n, eval(*expr2)?)
         }
         Sqrt(sub_expr) => match eval(*sub_expr)?.sqrt() {
             Some(result) => Ok(result),
@@ -276,75 +371,10 @@ pub fn eval(expr: Node) -> Result<Decimal, Box<dyn error::Error>> {
                 .checked_powd(exponent)
                 .ok_or_else(out_of_range)
         }
-        Min(args) => {
-            if args.len() > 1 {
-                let mut result = Decimal::MAX;
-                for arg in <Vec<Node> as Clone>::clone(&args).into_iter() {
-                    result = eval(arg)?.min(result);
-                }
-                Ok(result)
-            } else {
-                match args.first() {
-                    Some(arg) => Ok(eval((*arg).clone())?),
-                    None => Ok(Decimal::ZERO),
-                }
-            }
-        }
-        Max(args) => {
-            if args.len() > 1 {
-                let mut result = Decimal::MIN;
-                for arg in <Vec<Node> as Clone>::clone(&args).into_iter() {
-                    result = eval(arg)?.max(result);
-                }
-                Ok(result)
-            } else {
-                match args.first() {
-                    Some(arg) => Ok(eval((*arg).clone())?),
-                    None => Ok(Decimal::ZERO),
-                }
-            }
-        }
-        Avg(args) => {
-            let len = Decimal::new(args.len() as i64, 0);
-            let mut values = vec![];
-            for arg in <Vec<Node> as Clone>::clone(&args).into_iter() {
-                values.push(eval(arg)?);
-            }
-            let mut sum = Some(Decimal::ZERO);
-            for value in values.iter() {
-                sum = sum.and_then(|s| s.checked_add(*value));
-            }
-            match sum {
-                Some(sum) => Ok(sum / len),
-                // the sum leaves the Decimal range although the mean does not
-                None => {
-                    let mut mean = Decimal::ZERO;
-                    for value in values.iter() {
-                        mean = mean.checked_add(*value / len).ok_or_else(out_of_range)?;
-                    }
-                    Ok(mean)
-                }
-            }
-        }
-        Med(args) => {
-            let mut results = vec![];
-            for arg in <Vec<Node> as Clone>::clone(&args).into_iter() {
-                results.push(eval(arg)?);
-            }
-            results.sort_by(|a, b| a.partial_cmp(b).unwrap_or(std::cmp::Ordering::Equal));
-            let len = results.len();
-            if len % 2 == 0 {
-                let two = Decimal::new(2, 0);
-                match results[len >> 1].checked_add(results[(len >> 1) - 1]) {
-                    Some(sum) => Ok(sum / two),
-                    None => (results[len >> 1] / two)
-                        .checked_add(results[(len >> 1) - 1] / two)
-                        .ok_or_else(out_of_range),
-                }
-            } else {
-                Ok(results[len >> 1])
-            }
-        }
+        Min(args) => eval_min(args),
+        Max(args) => eval_max(args),
+        Avg(args) => eval_avg(args),
+        Med(args) => eval_med(args),
     }
 }
 
